@@ -135,6 +135,12 @@ void sc_tileset(Tape& t, int, Emit& e) {
 	BitmapFile b = BitmapFile::CreateIndexed(8, 32, t.flag() ? int32_t(32 * k) : -int32_t(32 * k), pal, px);
 	Stream::DynamicMemoryWriter w; Tileset::WriteCustomTileset(w, b); auto cb = bytes_of(w); e.blob("tileset.custom", cb);
 	Stream::MemoryReader r(cb.data(), cb.size()); BitmapFile back = Tileset::ReadTileset(r); dump_bitmap(back, e); e.headerFromLocal = true; e.container = k > 0;
+	// the same kind of picture arriving as a standard bitmap with a PARTIAL colour table: whatever the custom writer puts into the unused
+	// palette entries must not come from memory
+	{ unsigned used = 1 + unsigned(t.below(255)); refgfx::LBmp L; L.depth = 8; L.width = 32; L.height = t.flag() ? 32 : -32; L.usedColors = used;
+	  for (unsigned i = 0; i < used; ++i) L.palette.push_back({t.u8(), uint8_t(i), 7, 0}); L.pixels.assign(32 * 32, uint8_t(used - 1));
+	  auto v = refgfx::encode_bmp(L); Stream::MemoryReader r2(v.data(), v.size()); BitmapFile part = Tileset::ReadTileset(r2); dump_bitmap(part, e);
+	  Stream::DynamicMemoryWriter w2; Tileset::WriteCustomTileset(w2, part); e.blob("tileset.custom_from_partial_palette", bytes_of(w2)); }
 }
 void sc_prt(Tape& t, int, Emit& e) {
 	refgfx::LPrt p = prtgen::gen_lprt(t);
